@@ -109,8 +109,14 @@ impl Property for C19 {
                 continue;
             }
             let mut want: BTreeSet<(usize, String)> = BTreeSet::new();
+            // (hints inside the argument list of a multiclass reference are not asserted, also not those
+            // of a class value nested in it)
+            let mc_spans0: Vec<(usize, usize)> = p.classrefs.iter().filter(|r| r.file == fi && r.is_multiclass).filter_map(|r| r.args_range).collect();
             for r in p.classrefs.iter().filter(|r| r.file == fi && !r.is_multiclass) {
                 for (at, name) in &r.positional {
+                    if mc_spans0.iter().any(|s| s.0 <= *at && *at <= s.1) {
+                        continue;
+                    }
                     want.insert((*at, name.clone()));
                     npos += 1;
                 }
